@@ -23,6 +23,13 @@
 // shared by 2..6 roots that are compiled for the first time by different
 // goroutines.
 //
+// A third stream, "broken" (broken.go, its own child process): shared type and
+// enum-rule objects that are INVALID in a way only the check of a root finds
+// (next to sound ones), big enough for the check of ONE type to take a while,
+// added to 2..6 roots whose FIRST compiles are released by one barrier; every
+// root must report the error (code, position, file) of the sequential run, at
+// its first call and at every later one.
+//
 // Type objects involved in an allOf expansion (the type uses allOf, or the
 // root using them has an allOf rule that names them) are rewritten in place
 // by every root's compile: sharing those between roots is the known finding
@@ -263,6 +270,8 @@ type target struct {
 	setup    string   // replayable description of the set-up
 	docs     []string // documents for Validate
 	w        want
+
+	firstCompile bool // the first call of every goroutine is one that compiles (Check / Validate / Example / GetAST)
 }
 
 func specTarget(spec c11.SchemaSpec, w want) target {
@@ -276,6 +285,9 @@ func hammer(col *collector, r *rand.Rand, s *jschema.Schema, t target, n int, wh
 	spec, w := t, t.w
 	for i := 0; i < n; i++ {
 		code := []int{opCheck, opValidate, opValidate, opValidate, opLen, opExample, opExample, opAST, opUsed}[r.Intn(9)]
+		if i == 0 && t.firstCompile {
+			code = []int{opCheck, opCheck, opValidate, opExample, opAST}[r.Intn(5)]
+		}
 		doc := r.Intn(len(t.docs))
 		got, b, id := observe(s, code, t.docs[doc])
 		k := opKey(code, doc)
@@ -567,7 +579,7 @@ func child(stream string, onlyRound, repeat int) {
 	res := racekit.NewChildResult()
 	col := &collector{res: res}
 	known := stream == "known"
-	if stream == "nested" || onlyRound >= 0 {
+	if stream == "nested" || stream == "broken" || onlyRound >= 0 {
 		// rounds over shared type objects that own types themselves (nested.go)
 		var rounds []int
 		if onlyRound >= 0 {
@@ -575,7 +587,7 @@ func child(stream string, onlyRound, repeat int) {
 				rounds = append(rounds, onlyRound)
 			}
 		} else {
-			for i, n := 0, nestedRounds(known); i < n; i++ {
+			for i, n := 0, nestedRounds(stream); i < n; i++ {
 				rounds = append(rounds, i)
 			}
 		}
@@ -583,7 +595,7 @@ func child(stream string, onlyRound, repeat int) {
 		if onlyRound >= 0 {
 			inFlight = 1
 		}
-		nestedChild(col, stream, known, rounds, inFlight)
+		nestedChild(col, stream, rounds, inFlight)
 		col.mu.Lock()
 		res.Print()
 		col.mu.Unlock()
@@ -647,10 +659,10 @@ func child(stream string, onlyRound, repeat int) {
 	if known && finishedOK(finished) {
 		// the allOf variant of the nested rounds belongs to the known class as well
 		var rounds []int
-		for i, n := 0, nestedRounds(true); i < n; i++ {
+		for i, n := 0, nestedRounds("known"); i < n; i++ {
 			rounds = append(rounds, i)
 		}
-		nestedChild(col, stream, true, rounds, nestedInFlight)
+		nestedChild(col, "known", rounds, nestedInFlight)
 	}
 	col.mu.Lock()
 	res.Print()
@@ -666,9 +678,12 @@ func finishedOK(finished chan struct{}) bool {
 	}
 }
 
-func nestedRounds(known bool) int {
-	if known {
+func nestedRounds(stream string) int {
+	switch stream {
+	case "known":
 		return vh.Pick(60, 600)
+	case "broken":
+		return vh.Pick(brokenRoundsQuick, brokenRoundsThorough)
 	}
 	return vh.Pick(200, 3000)
 }
@@ -732,7 +747,7 @@ func Run(args []string) {
 			withKnown = true
 		case "--child":
 			childStream = args[i+1]
-		case "--round": // with --child nested|known: only this nested round, --repeat times (replay of a report)
+		case "--round": // with --child nested|known|broken: only this nested round, --repeat times (replay of a report)
 			fmt.Sscan(args[i+1], &onlyRound)
 		case "--repeat":
 			fmt.Sscan(args[i+1], &repeat)
@@ -753,7 +768,17 @@ func Run(args []string) {
 			"enum rules, additionalProperties, self references; no allOf), built once and added to 2..6 roots that are set up, compiled for the "+
 			"first time and used by 1..4 goroutines each (2..24 per round), 3 rounds at a time; oracle = each root over fresh objects, sequentially; "+
 			"race reports are attributed to rounds by stderr marks and confirmed by replaying the round alone. Non-trivial there = an object "+
-			"shared by >= 2 roots owns a type that owns (named or anonymous) types and >= 2 roots pass Check")
+			"shared by >= 2 roots owns a type that owns (named or anonymous) types and >= 2 roots pass Check. Stream broken (third child): the "+
+			"rounds of stream nested over 1..2 BIG flat type objects (object / array texts of 12..240 members: a random unit of 1..4 member lines "+
+			"repeated; rules min / minLength / maxLength / inline enums of 4..40 values / an enum rule whose ONE object of 8..250 values is added "+
+			"to all type objects of the round / regex / or rule-sets / nested objects and arrays / references to the round's 0..2 small types) "+
+			"of which most carry ONE defect that passes AddType and is found only by the check of a root, at a random place of the text (example "+
+			"breaking its own rule: minLength, min, max, enum, enum rule, regex, precision, exclusiveMinimum; rule not fitting the JSON type; or "+
+			"rule-set without fitting alternative; reference to a type no root has; key shortcut to a non-string type; type rule naming a type of "+
+			"another JSON type; additionalProperties naming a missing type; required self reference), the same objects added to 2..6 roots, 4 of "+
+			"5 set up before the start, every goroutine's first call is Check / Validate / Example / GetAST, all released together, then random "+
+			"mixes; oracle = each root over fresh objects sequentially (error code, position, file), documents from the example of the root over "+
+			"the sound variants of its types. Non-trivial there = a defective type object of >= 30 members added to >= 2 roots of the round")
 	if racekit.Enabled {
 		rep.Extra["race_detector"] = "on"
 	} else {
@@ -791,18 +816,18 @@ func Run(args []string) {
 			}
 			for _, m := range marks {
 				if c, ok := solo[m]; ok && key != "" && c.keys[key] {
-					return fmt.Sprintf("; REPRODUCED by this round alone (%d repetitions): %s", soloRepeat, describeNestedMark(m, stream == "known"))
+					return fmt.Sprintf("; REPRODUCED by this round alone (%d repetitions): %s", soloRepeat, describeNestedMark(m, stream))
 				}
 			}
 			for _, m := range marks {
 				if c, ok := solo[m]; ok && (len(c.keys) > 0 || c.problem != "") {
 					return fmt.Sprintf("; printed while this round was running, which alone (%d repetitions) gives %d distinct race report(s)%s: %s", soloRepeat,
-						len(c.keys), map[bool]string{true: " and ends abnormally", false: ""}[c.problem != ""], describeNestedMark(m, stream == "known"))
+						len(c.keys), map[bool]string{true: " and ends abnormally", false: ""}[c.problem != ""], describeNestedMark(m, stream))
 				}
 			}
 			var sb []string
 			for _, m := range marks {
-				sb = append(sb, describeNestedMark(m, stream == "known"))
+				sb = append(sb, describeNestedMark(m, stream))
 			}
 			return "; printed while these rounds were running (none reproduces it alone): " + strings.Join(sb, " AND ")
 		}
@@ -820,14 +845,16 @@ func Run(args []string) {
 		}
 	}
 	// the two default streams side by side (two child processes)
-	var mainOut, nestedOut streamOut
+	var mainOut, nestedOut, brokenOut streamOut
 	var swg sync.WaitGroup
-	swg.Add(2)
+	swg.Add(3)
 	go func() { defer swg.Done(); mainOut = runStream("main") }()
 	go func() { defer swg.Done(); nestedOut = runStream("nested") }()
+	go func() { defer swg.Done(); brokenOut = runStream("broken") }()
 	swg.Wait()
 	merge("main", "", mainOut)
 	merge("nested", "", nestedOut)
+	merge("broken", "", brokenOut)
 	if withKnown {
 		merge("known", "K-C12-allof", runStream("known"))
 	}
